@@ -1,5 +1,6 @@
 SPECIFICATION Spec
-CONSTANTS MaxRound = 3  NoRefit = FALSE  EmitBeh = FALSE
+CONSTANTS MaxRound = 3  Mutation = "none"  EmitBeh = FALSE
 CHECK_DEADLOCK FALSE
 INVARIANT FittedAfterConditioners
 INVARIANT IndependentFitImmediately
+INVARIANT NoPrematureFit
